@@ -10,7 +10,8 @@
  "matrix": {"SHA_PART": [0, 1, 2, 3]},
  "loop_contracts": false,
  "backend": "kissat",
- "timeout": 900,
+ "tier": "thorough",
+ "timeout": 3000, "thorough_timeout": 3000,
  "assumptions": ["build with no CPUSUPPORT_* macro: portable SHA256_Transform only",
                  "hwaccel havocked over its whole enum range; accelerated callees replaced by SHA256_COMPRESS_CONTRACT (SHA-NI: enforced in C03/sha_shani; SSE2: declared, whole-function proof undecided, leaves C03/sha_sse2_msg4, sha_sse2_bswap)",
                  "portable rounds: one cut-point lemma per RNDr / MSCH line (asserted, then assumed); the 4 matrix instances assert the cut points of 16 rounds each",
